@@ -83,7 +83,7 @@ func (ex *Exec) callValue(st *State, fc *FnCtx, c *ssa.CallCommon, fnv Val, args
 			return
 		}
 		ms := newModSet()
-		ex.prog.calleeEffects(ex.cs, ms, c, fc.fn, func(f *ssa.Function) { ms.union(ex.prog.modSetOf(ex.cs, f)) })
+		ex.prog.callEffect(ex.cs, ms, c, fc.fn)
 		ex.havocCall(st, ms, name)
 		k(st, ex.freshResults(st, sig.Results(), "ir"))
 		return
